@@ -319,6 +319,11 @@ func intrinsicTable() map[string]intrinsic {
 		})
 		return done(TimeV{ns: t, zero: m.tt.ff})
 	}
+	T[zz+"CivilTime"] = func(m *Machine, th *Thread, fr *Frame, f FuncV, a []Value) (Value, invStatus) {
+		t := m.newCivilInput(m.argStr(a[0]), a[1])
+		m.civSeen = append(m.civSeen, t.civ)
+		return done(t)
+	}
 	T[zz+"TimeFromNanos"] = func(m *Machine, th *Thread, fr *Frame, f FuncV, a []Value) (Value, invStatus) {
 		return done(TimeV{ns: a[0].(*Term), zero: m.tt.ff})
 	}
